@@ -16,7 +16,7 @@ From Coq Require Import List NArith ZArith Arith Bool Lia.
 From GmsmVerif Require Import Gen.DecConsts Lib.Outcome Dec.Access Dec.AccessProofs Dec.DecSpec
   Dec.BerModel Dec.BerProofs Dec.BerDer Dec.BerFuel Dec.BerSize Dec.ByteModels Dec.ByteProofs
   Dec.Asn1Model Dec.Asn1Proofs Dec.Asn1Inst Dec.Asn1InstProofs Dec.Asn1DerLink Gen.Asn1Schemas.
-From GmsmVerif Require SM2.DER.
+From GmsmVerif Require SM2.DER Gen.DecBerLen Dec.BerLenBound.
 Import ListNotations.
 Local Open Scope nat_scope.
 
@@ -358,4 +358,40 @@ Example C18_asn1_examples :
   (do '(v, rest, st) <- Unmarshal certOuterSchema noParams [48;16; 48;2;5;0; 48;5;6;3;42;3;4; 3;3;0;1;2; 9]%N; Ok (v, rest, st))
     = Ok (VStruct [48;16;48;2;5;0;48;5;6;3;42;3;4;3;3;0;1;2]%N
             [VRaw 0 16 true [5;0]%N [48;2;5;0]%N; VStruct [] [VOID [1;2;3;4]%N; VAbsent]; VBits [1;2]%N 16], [9]%N, 5%N).
+Proof. vm_compute. repeat split; reflexivity. Qed.
+
+(* ================= round 6: the length arithmetic of readObject in Go's 64-bit int ================ *)
+(* The width limits of the long-form length are the source's (translator target dec -> Gen/DecBerLen.v) ... *)
+Theorem C18_ber_length_width_is_source :
+  DecBerLen.gen_berMaxLenOctets = 4%N /\ DecBerLen.gen_berNegLenOctets = 4%N.
+Proof. exact BerLenBound.ber_len_octets_tie. Qed.
+Print Assumptions C18_ber_length_width_is_source.
+
+(* ... and under them "offset + length" cannot wrap: every length readObject accepts is below
+   2^(8*gen_berMaxLenOctets-1) = 2^31, the offset behind the length octets is within the input, and for every
+   input a 64-bit machine can hold the wrapping sum is the mathematical one, so that the test
+   "contentEnd > len(ber)" and the model's "length > len(ber)-offset" decide the same. *)
+Theorem C18_ber_content_end_no_wrap :
+  forall ber te len off ind,
+    bytes_ok ber -> (Z.of_nat (length ber) < 2 ^ 62)%Z ->
+    read_length ber te = Ok (len, off, ind) ->
+    (len < 2 ^ (8 * DecBerLen.gen_berMaxLenOctets - 1))%N /\ te < off <= length ber /\
+    BerLenBound.wrap64 (Z.of_nat off + Z.of_N len) = (Z.of_nat off + Z.of_N len)%Z /\
+    (BerLenBound.wrap64 (Z.of_nat off + Z.of_N len) >? Z.of_nat (length ber))%Z
+      = (N.of_nat (Nat.sub (length ber) off) <? len)%N.
+Proof.
+  intros ber te len off ind Hb Hl H.
+  destruct (BerLenBound.read_length_below_width ber te len off ind Hb H) as [A B].
+  destruct (BerLenBound.ber_content_end_no_wrap ber te len off ind Hb Hl H) as [C D].
+  repeat split; try assumption; apply B.
+Qed.
+Print Assumptions C18_ber_content_end_no_wrap.
+
+(* non-vacuity: a 4-octet length at its limit is read and refused by the bound test without wrapping; the same
+   sum with an 8-octet length (04 88 7f ff ff ff ff ff ff fe) wraps negative and would pass "contentEnd > len" *)
+Example C18_ber_length_wrap_examples :
+  read_length [4; 132; 127; 255; 255; 255; 1; 2; 3]%N 1 = Ok (2147483647%N, 6, false) /\
+  ber2der [4; 132; 127; 255; 255; 255; 1; 2; 3]%N = Err 7 /\
+  ber2der [4; 136; 127; 255; 255; 255; 255; 255; 255; 254; 1; 2; 3]%N = Err 4 /\
+  BerLenBound.wrap64 (10 + (2 ^ 63 - 2)) = (- 2 ^ 63 + 8)%Z.
 Proof. vm_compute. repeat split; reflexivity. Qed.
